@@ -42,3 +42,13 @@ package corebgp
 //@ pure apNext(b, o) = pfxNext(b, o + 4)
 //@ pure apOK(b, o, v6) = 0 <= o && o + 5 <= len(b) && pfxOK(b, o + 4, v6)
 //@ pure apChain(b, offs, n, pos) = (n == 0 ? pos == 0 : offs[0] == 0 && pos == apNext(b, offs[n-1])) && (forall k :: 0 <= k && k < n - 1 ==> offs[k+1] == apNext(b, offs[k]))
+
+// UPDATE path attributes (RFC 4271 4.3): flags(1) type(1) length(1|2) value
+//@ pure attrExt(b, p) = bit(b[p], 16)
+//@ pure attrHdr(b, p) = attrExt(b, p) ? 4 : 3
+//@ pure attrLen(b, p) = attrExt(b, p) ? be16(b, p+2) : b[p+2]
+//@ pure attrFits(b, p) = p + 2 <= len(b) && p + attrHdr(b, p) <= len(b) && p + attrHdr(b, p) + attrLen(b, p) <= len(b)
+//@ pure attrNext(b, p) = p + attrHdr(b, p) + attrLen(b, p)
+// set view of attrsBitmap: bmHas(bitmap value, code)
+//@ uf bmHas(2) bool
+//@ axiom forall c :: !bmHas(emptyArr(), c)
